@@ -218,16 +218,42 @@ func (e *Engine) verifyUnit(fn *ssa.Function, classes map[string]bool) *UnitResu
 			}
 		}
 	}()
-	for pass := 0; pass < 2; pass++ {
+	// pass 0: discovery (syntactic write sets of loops, nothing emitted); pass 1 (only when a loop's write set contains
+	// an unknown effect): same as the real pass but obligations are discarded - paths the precondition excludes are
+	// pruned, which refines the write sets (still an over-approximation: reachability is decided under the coarser
+	// havoc of pass 0); pass 2: the real pass.
+	for pass := 0; pass < 3; pass++ {
+		if pass == 1 {
+			star := false
+			for _, ws := range u.loopWrites {
+				if ws["*"] {
+					star = true
+				}
+			}
+			if !star {
+				continue
+			}
+		}
 		u.discovery = pass == 0
+		u.record = pass < 2
+		u.noObls = pass == 1
+		u.newWrites = map[string]map[string]bool{}
 		u.reg = newRegistry()
 		u.body = nil
 		u.obls = nil
 		u.nfresh = 0
 		u.nextEpoch = 0
 		u.notes = map[string]bool{}
-		u.heapSort = map[string]string{}
-		u.heapInfo = map[string]heapInfo{}
+		if pass == 0 {
+			// name -> sort tables are stable across the passes; the discovery pass fills them for names
+			// that a later pass havocs at a loop head before their first use
+			u.heapSort = map[string]string{}
+			u.mapTags = map[string]*types.Map{}
+			u.heapInfo = map[string]heapInfo{}
+		}
+		u.addrIds = map[string]int{}
+		u.mapWFDone = map[string]bool{}
+		u.reachCache = map[string]bool{}
 		u.oblCount = map[string]int{}
 		u.sinks = nil
 		u.inlineStack = nil
@@ -237,6 +263,9 @@ func (e *Engine) verifyUnit(fn *ssa.Function, classes map[string]bool) *UnitResu
 		u.runRoot()
 		if u.failed != "" {
 			break
+		}
+		if u.record {
+			u.loopWrites = u.newWrites
 		}
 	}
 	res.Failed = u.failed
@@ -307,13 +336,16 @@ func (u *Unit) runRoot() {
 	}
 	if u.spec != nil && !u.discovery {
 		ctx := &specCtx{fr: fr, cur: st, old: st, env: env}
-		for _, cl := range u.spec.Requires {
+		for _, cl := range append(append([]*Clause{}, u.spec.Requires...), u.spec.Assumes...) {
 			t, err := u.specBool(cl.Expr, ctx)
 			if err != nil {
 				u.failed = fmt.Sprintf("%s:%d: %v", cl.File, cl.Line, err)
 				return
 			}
 			u.assume(st, t)
+			if cl.Kind == "assumes" {
+				u.note("ownership/environment assumption of " + u.spec.Name + ": " + cl.Text)
+			}
 		}
 		if err := u.typeInvs(fr, st, st, env, false, token.NoPos); err != nil {
 			u.failed = err.Error()
@@ -326,7 +358,7 @@ func (u *Unit) runRoot() {
 	}
 	u.entry = st.clone()
 	fr.run(st)
-	if u.failed != "" || u.discovery {
+	if u.failed != "" || u.discovery || u.noObls {
 		return
 	}
 	canaryLen := len(u.body) // before the postcondition checks (a failed check is assumed afterwards)
